@@ -35,13 +35,29 @@ class NodeSel:
         self.which = which      # 'next' | 'prev' | 'first' | 'last'
 
 
+def rename_atoms(v, tag):
+    """the same quantity of the body at another instant: fresh symbols, same shape / frame / rotation tag"""
+    if isinstance(v, RodNodes):
+        return RodNodes(tag + v.nm, v.frame, v.lead)
+    if isinstance(v, A) and v.name:
+        return named(v.name.replace(":", tag + ":", 1), v.lead, v.batch, v.frame, v.rot)
+    raise Unsupported("cannot rename %r" % (v,))
+
+
 class BodyModel:
     """what the attributes of the elastica objects denote (assumption A6)"""
 
-    def __init__(self, kind):
+    def __init__(self, kind, initial=False):
         self.kind = kind
+        self.initial = initial        # the body as it was when the grid was constructed (distinct symbols)
 
     def attr(self, name, dim):
+        v = self._attr(name, dim)
+        if self.initial and name != "n_elems":
+            return rename_atoms(v, "0")
+        return v
+
+    def _attr(self, name, dim):
         if self.kind == "rod":
             if name == "position_collection":
                 return RodNodes("X", LAB)
@@ -432,9 +448,39 @@ class GridInterp:
             return self.attrs[name]
         d = self.default_attr(name)
         if d is None:
+            d = self.constructor_value(name)
+            if d is not None:
+                self.attrs[name] = d
+        if d is None:
             self.err(node, "attribute self.%s has no model" % name)
         self.attrs[name] = d
         return d
+
+    def constructor_value(self, name):
+        """a buffer the table below does not know: what the constructor put into it, evaluated against the body AS IT WAS AT
+        CONSTRUCTION (symbols of their own), so a method that reads it without refreshing it first sees the old body state"""
+        for c in self.mro:
+            init = next((f for f in c.body if isinstance(f, ast.FunctionDef) and f.name == "__init__"), None)
+            if init is None:
+                continue
+            sts = [st for st in ast.walk(init) if isinstance(st, ast.Assign) and len(st.targets) == 1
+                   and isinstance(st.targets[0], ast.Attribute) and isinstance(st.targets[0].value, ast.Name)
+                   and st.targets[0].value.id == "self" and st.targets[0].attr == name]
+            if not sts:
+                continue
+            st = max(sts, key=lambda x: x.lineno)
+            body, events, quiet = self.body, self.events, getattr(self, "quiet_get", False)
+            self.body = BodyModel(body.kind, initial=True)
+            self.events = []
+            held = {k: self.attrs.pop(k) for k in [k for k, v in self.attrs.items() if v is body]}
+            try:
+                return self.ev(st.value)
+            finally:
+                for k in [k for k, v in self.attrs.items() if v is self.body]:
+                    del self.attrs[k]
+                self.attrs.update(held)
+                self.body, self.events, self.quiet_get = body, events, quiet
+        return None
 
     def default_attr(self, name):
         dim = self.dim
@@ -546,7 +592,7 @@ class GridInterp:
             return scalar(const(1))
         if fn == "np.amax":
             return scalar(sym("amax"))
-        if isinstance(e.func, ast.Attribute) and e.func.attr == "reshape":
+        if isinstance(e.func, ast.Attribute) and e.func.attr in ("reshape", "copy") and not (e.func.attr == "copy" and args):
             return self.ev(e.func.value)
         self.err(e, "call of %s" % fn)
 
